@@ -20,4 +20,20 @@ func simProbe(name string)                       {}
 func simClientBorn(id int64, remoteAddr string)  {}
 func simPersistStage(stage string, path string)  {}
 
+// map iteration in table order (the order is unspecified either way)
+func simKeys[K comparable, V any](m map[K]V, less func(a, b K) bool) []K {
+	keys := make([]K, 0, len(m))
+	for k := range m {
+		keys = append(keys, k)
+	}
+	return keys
+}
+
+func simSelectFirst(site string, n int) int { return -1 }
+
+func simRespLess(a, b respValue) bool { return false }
+
+func simNewObject(p any)     {}
+func simOrdinal(p any) int64 { return 0 }
+
 func netListen(network, addr string) (net.Listener, error) { return net.Listen(network, addr) }
